@@ -216,6 +216,30 @@ def ob_nonrigid(ctx, name, D, a):
     ctx.eq(t.flow().tensor(), u, f"{name}: flow() holds the displacement")
 
 
+def ob_sequential_nonrigid(ctx, D, a, kind):
+    """Composite with a non-rigid member that is not first: members are applied one after the other at the
+    already transformed points (Sequential) / displacements are added at the input points (MultiLevel)."""
+    import deepali.spatial as S
+
+    sizes = (4, 3) if D == 2 else (3, 3, 2)
+    g = geom.concrete_grid(D, ctx.seed, 0, align_corners=a, sizes=sizes)
+    ctx.witness_cells()
+    A = _make_linear(ctx, "Translation", g, D, prefix="a")
+    Bt = _nonrigid(ctx, "DisplacementFieldTransform", g, D)
+    comp = (S.SequentialTransform if kind == "sequential" else S.MultiLevelTransform)(A, Bt)
+    comp.update()
+    c = g.coords(align_corners=a).unsqueeze(0)
+    pts = c.reshape(1, -1, D)
+    y1 = A(pts)
+    if kind == "sequential":
+        ref = Bt(y1)
+    else:
+        ref = pts + (y1 - pts) + (Bt(pts) - pts)
+    ctx.eq(comp(pts), ref, f"{kind}(linear, non-rigid)(points) == members applied in order")
+    ctx.eq(comp(c, grid=True).reshape(1, -1, D), ref, f"{kind}(linear, non-rigid)(grid points, grid=True) == members applied in order")
+    ctx.eq((c + comp.disp().movedim(1, -1)).reshape(1, -1, D), ref, f"{kind}(linear, non-rigid): x + disp()(x) == forward(x)")
+
+
 def ob_image_transformer(ctx, name, D, a_t, a_tgt, a_src, flip_coords=False, symbolic_grids=False):
     """ImageTransformer(T, target, source)(I)[j] == I(T(w_j)) for linear-intensity images and linear T."""
     from deepali.core.linalg import homogeneous_transform
@@ -312,6 +336,9 @@ def obligations(tier: str, seed: int):
         for kind in ("sequential", "multilevel"):
             obs.append((f"{kind}-D{D}-rot-trans", ob_composite, dict(kind=kind, names=("EulerRotation", "Translation"), D=D, a=True)))
             obs.append((f"{kind}-D{D}-scale-shear-trans", ob_composite, dict(kind=kind, names=("AnisotropicScaling", "Shearing", "Translation"), D=D, a=False)))
+        for a in (True, False):
+            for kind in ("sequential", "multilevel"):
+                obs.append((f"{kind}-nonrigid-D{D}-ac{int(a)}", ob_sequential_nonrigid, dict(D=D, a=a, kind=kind)))
         for name in nonrigid:
             for a in (True, False):
                 if "FreeForm" in name and not a:
